@@ -16,6 +16,7 @@ why={"C08":"repairing the writer means changing the version byte that existing t
      "C15":"the block's capacity accounting (prefix and checksum inside the block) is asserted byte-for-byte by existing tests; a repair changes every offset",
      "C20":"the encoders return 0x7F for NaN and the decoders read 0x7F as +Inf; the existing tests assert exactly that code (TestFP8E4M3_SpecialConversions / E5M2), so the repair would break the unedited suite",
      "C14":"records hold only (hash, heap id); telling colliding names apart needs a lookup of the stored name in the heap on every hash match — an interface change between index and heap",
+     "C07":"the result of Read is one value per element of the extent, so its size is the extent's by construction; a sparse or compressed chunked dataset of the reference library legitimately has an extent far larger than its file, so no bound tied to the file size can be enforced without rejecting valid files — the limit is a policy decision (the library's is 1 TiB)",
      "C18":"the lazy state is shared between the loop goroutine and foreground calls without any lock; a repair is a locking design for WritableBTreeV2"}
 opn="| id | property | harness / label | what fails, and why it is recorded rather than repaired |\n|---|---|---|---|\n"
 for f in op:
